@@ -14,6 +14,7 @@ use crate::parser::model_transformer::TransformError;
 use crate::parser::model_transformer::TransformerContext;
 use crate::parser::recursive_set_resolver::recursive_set_resolver;
 use crate::primitives::ApplyOp;
+use crate::primitives::OperatorError;
 use crate::primitives::IterableKind;
 use crate::primitives::{Graph, GraphEdge, GraphNode};
 use crate::primitives::{Primitive, PrimitiveKind};
@@ -743,6 +744,10 @@ impl PreExp {
                 let value = v.as_primitive(context, fn_context)?;
                 match value.apply_unary_op(**op) {
                     Ok(value) => Ok(value),
+                    //failures that depend on the values are not type errors
+                    Err(e @ (OperatorError::DivisionByZero | OperatorError::Overflow { .. })) => {
+                        Err(TransformError::Other(e.to_string()))
+                    }
                     Err(_) => Err(TransformError::from_wrong_unop(
                         **op,
                         value.get_type(),
@@ -755,6 +760,10 @@ impl PreExp {
                 let rhs = rhs.as_primitive(context, fn_context)?;
                 match lhs.apply_binary_op(**op, &rhs) {
                     Ok(value) => Ok(value),
+                    //failures that depend on the values are not type errors
+                    Err(e @ (OperatorError::DivisionByZero | OperatorError::Overflow { .. })) => {
+                        Err(TransformError::Other(e.to_string()))
+                    }
                     Err(_) => Err(TransformError::from_wrong_binop(
                         **op,
                         lhs.get_type(),
